@@ -8,6 +8,7 @@
 -/
 import CijProofs.Lemmas.NonShearCalculus
 import CijProofs.Lemmas.NonShearSource
+import Generated.AdapterSpec
 
 namespace Cij.C02
 
@@ -178,5 +179,29 @@ theorem c02_model_is_source (c : Consts ℝ) (w : List ℝ) (T P cv : ℝ) (s : 
     valueAdiabaticOffAt c w T P cv s = evalBody (envAt c w T P cv s (mgOff s) a b (valueIsothermalOffAt c w T P s)
         (isoToAdiaAt c.k c.hdk c.na T s.V cv (mgOff s) s.freq w)) Generated.nsAdiaOff :=
   ⟨rfl, rfl, rfl, rfl⟩
+
+/-! #### the heat capacity handed over is the (T,V) field -/
+
+/-- qha's (T,V)-grid fields and (T,P)-grid fields (its naming: `…_tv…` / `…_tp…`), and the grid arrays -/
+def tvFields : List String := ["g_tv_ry", "f_tv_ry", "h_tv_ry", "u_tv_ry", "p_tv_au", "p_tv_gpa", "alpha_tv", "bt_tv_au", "bs_tv_au", "cv_tv_au", "s_tv_j"]
+def tpFields : List String := ["g_tp_ry", "f_tp_ry", "h_tp_ry", "u_tp_ry", "v_tp_bohr3", "v_tp_ang3", "alpha_tp", "bt_tp_au", "bs_tp_au",
+  "cv_tp_au", "cp_tp_au", "gamma_tp", "btp_tp"]
+def gridArrays : List String := ["finer_volumes_bohr3", "desired_pressures", "temperature_array", "temperature_sample_array", ""]
+
+/-- **adapter-is-source**: as translated from `qha_adapter.py` on this run, `QHAVolumeBaseInterface.heat_capacity` is qha's
+`cv_tv_au` (C_V on the (T,V) grid, the field the formula divides by) and `.pressures` is `p_tv_au`; every array the volume
+interface hands over is a (T,V) field or a grid array, never a (T,P) field; symmetrically for the pressure interface
+(`volumes = v_tp_bohr3`, `p_array = desired_pressures`); `read_input` passes the file's fields unchanged.  A one-token slip
+between the two interfaces changes the generated tables and this theorem stops checking. -/
+theorem qha_adapter_fields_are_source :
+    Generated.qhaVolumeBaseAttrs.lookup "heat_capacity" = some "cv_tv_au" ∧
+    Generated.qhaVolumeBaseAttrs.lookup "pressures" = some "p_tv_au" ∧
+    Generated.qhaPressureBaseAttrs.lookup "volumes" = some "v_tp_bohr3" ∧
+    Generated.qhaPressureBaseAttrs.lookup "p_array" = some "desired_pressures" ∧
+    (∀ e ∈ Generated.qhaVolumeBaseAttrs, e.2 ∈ tvFields ++ gridArrays) ∧
+    (∀ e ∈ Generated.qhaPressureBaseAttrs, e.2 ∈ tpFields ++ gridArrays) ∧
+    (∀ a ∈ tvFields, a ∉ tpFields) ∧
+    Generated.qhaReadInputCanonical = true := by
+  decide +kernel
 
 end Cij.C02
